@@ -51,10 +51,8 @@ Inductive ty :=
 | TDC (c: nat)                           (* dataclass number c of the class table *)
 | TWrap (t: ty)                          (* Final[t], Annotated[t, ..], NewType over t, PEP 695 alias of t,
                                             Required/NotRequired/ReadOnly[t]: unwrapped and re-dispatched *)
-| TUnion (ts: list ty).                  (* Union / constrained TypeVar; Optional[Union[..]] = TOpt (TUnion ..).
-                                            Modelled on the decode side; on the encode side only the
-                                            "all members are the identity" test is modelled and no value
-                                            conforms to a union (unions are outside the encode theorems) *)
+| TUnion (ts: list ty)                   (* Union / constrained TypeVar *)
+| TNone.                                 (* NoneType as a union member *)
 
 Inductive lv :=
 | VAtom (z: Z)
@@ -100,16 +98,38 @@ Definition effN (E: env) (call: option dialect) (k: cls) : list origin :=
 (* IR of pack expressions *)
 Inductive ir :=
 | IId                              (* the bare name: "value" / "key" / spec.expression *)
-| IConv                            (* value.isoformat(), str(value), encodebytes(value).decode() *)
+| IConv                            (* value.isoformat(), encodebytes(value).decode(): raises on other classes *)
+| IStr                             (* str(value): never raises *)
 | IOpt (e: ir)                     (* e if value is not None else None  (and the builder's None guard) *)
 | ICopy                            (* value.copy() *)
 | ISeqComp (e: ir)                 (* [e for value in x] *)
 | IMapComp (ke ve: ir)             (* {ke: ve for key, value in x.items()} *)
 | ITup (es: list ir)               (* [e0(x[0]), e1(x[1]), ...] *)
 | ICall (c: nat) (fw: bool)        (* x.__mashumaro_to_dict__(dialect=dialect if fw) *)
-| IUnion.                          (* generated union packer method: not modelled *)
+| IUnion (idc: list nat) (es: list ir).
+     (* union packer method (pack.py pack_union): `if value.__class__ in idc: return value` for the
+        members whose packer is the bare name, then `try: return e` for the other members in
+        declaration order; es lists all members' packers (the identity ones are skipped) *)
 
 Definition is_id (e: ir) : bool := match e with IId => true | _ => false end.
+
+(* class tags: what `value.__class__ is <origin of the member>` compares *)
+Definition kcode (k: kind) : nat :=
+  match k with KList => 10 | KSet => 11 | KFrozenSet => 12 | KDeque => 13 | KTuple => 14
+             | KDict => 15 | KOrderedDict => 16 | KDefaultDict => 17 | KCounter => 18 end.
+(* the concrete class an origin denotes; abstract origins are never the class of a value *)
+Definition ocls (o: origin) : list nat :=
+  match o with
+  | OList => [10] | OSet => [11] | OFrozenSet => [12] | ODeque => [13] | OTuple => [14]
+  | ODict => [15] | OOrderedDict => [16] | ODefaultDict => [17] | OCounter => [18]
+  | _ => [] end.
+(* classes guarded by the identity branch of a union for a member type (atoms, leaves and opaque
+   objects are not distinguished further in this model) *)
+Definition tid (t: ty) : list nat :=
+  match t with
+  | TAtom => [0] | TNone => [1] | TLeaf _ => [2] | TPass => [3]
+  | TSeq o _ => ocls o | TMap o _ _ => ocls o
+  | _ => [] end.
 
 (* pack.py:803-809 *)
 Definition seq_expr (N: list origin) (o: origin) (ie: ir) : ir :=
@@ -135,7 +155,7 @@ Section Compile.
   Fixpoint cp (t: ty) : ir :=
     match t with
     | TAtom => IId
-    | TLeaf k => if E.(e_lp) k then IId else IConv
+    | TLeaf k => if E.(e_lp) k then IId else match k with LDecimal => IStr | _ => IConv end
     | TAny => IId
     | TPass => IId
     | TOpt t' => IOpt (cp t')
@@ -145,7 +165,11 @@ Section Compile.
     | TMap o kt vt => map_expr N o (cp kt) (cp vt)
     | TDC c => ICall c (hsup && (E.(e_ct) c).(c_sup))
     | TWrap t' => cp t'                       (* pack_final / Registry.get (Annotated) / NewType / alias *)
-    | TUnion ts => if forallb is_id (map cp ts) then IId else IUnion   (* pack_union: a single "value" packer *)
+    | TUnion ts =>
+        let es := map cp ts in
+        if forallb is_id es then IId          (* pack_union: a single "value" packer *)
+        else IUnion (flat_map (fun t' => if is_id (cp t') then tid t' else []) ts) es
+    | TNone => IId
     end.
 End Compile.
 
@@ -192,6 +216,54 @@ Section ZipAll.
     end.
 End ZipAll.
 
+Section Pick.
+  Context {A B: Type} (m: A -> bool) (f: A -> B) (d: B).
+  Fixpoint pick (l: list A) : B :=
+    match l with
+    | [] => d
+    | x :: r => if m x then f x else pick r
+    end.
+End Pick.
+
+Definition vcls (v: lv) : nat :=
+  match v with
+  | VAtom _ => 0 | VNone => 1 | VLeaf _ => 2 | VOpq _ => 3
+  | VSeq k _ _ => kcode k | VMap k _ _ => kcode k | VObj c _ _ => 100 + c end.
+Definition in_idc (idc: list nat) (v: lv) : bool := existsb (Nat.eqb (vcls v)) idc.
+
+(* does the expression evaluate on v without raising (it is tried inside `try: ... except Exception`)?
+   Python duck typing as far as the value universe can tell: a comprehension iterates any sequence or the
+   keys of a mapping; .copy() exists on list/set/frozenset/deque/dict-likes, not on tuples; .items()
+   only on mappings; x[i] on list/tuple/deque; a dataclass packer only on dataclass instances *)
+Fixpoint accepts (v: lv) {struct v} : ir -> bool :=
+  fix on_ir (e: ir) {struct e} : bool :=
+    match e with
+    | IId | IStr => true
+    | IConv => match v with VLeaf _ => true | _ => false end
+    | IOpt e' => match v with VNone => true | _ => on_ir e' end
+    | ICopy => match v with
+               | VSeq k _ _ => negb (Nat.eqb (kcode k) 14)
+               | VMap _ _ _ => true
+               | _ => false end
+    | ISeqComp e' =>
+        match v with
+        | VSeq _ _ xs => forallb (fun x => accepts x e') xs
+        | VMap _ _ kvs => forallb (fun kv => match kv with (k, _) => accepts k e' end) kvs
+        | _ => false end
+    | IMapComp ke ve =>
+        match v with
+        | VMap _ _ kvs => forallb (fun kv => match kv with (k, x) => accepts k ke && accepts x ve end) kvs
+        | _ => false end
+    | ITup es =>
+        match v with
+        | VSeq k _ xs =>
+            (Nat.eqb (kcode k) 10 || Nat.eqb (kcode k) 13 || Nat.eqb (kcode k) 14) &&
+            (length es <=? length xs) && zip_all accepts es xs
+        | _ => false end
+    | ICall _ _ => match v with VObj _ _ _ => true | _ => false end
+    | IUnion idc es => in_idc idc v || existsb (fun e' => negb (is_id e') && on_ir e') es
+    end.
+
 (* the packed form of a dataclass: a new dict {name: packed field}; key strings are
    immutable atoms (their text is irrelevant here) *)
 Definition as_items (ys: list lv) : list (lv * lv) := map (fun y => (VAtom 0, y)) ys.
@@ -207,16 +279,22 @@ Section RunPack.
       match e with
       | IId => (v, n)
       | IConv => match v with VLeaf z => (VAtom z, n) | _ => (v, n) end
+      | IStr => match v with VLeaf z => (VAtom z, n) | _ => (VAtom 0, n) end
       | IOpt e' => match v with VNone => (VNone, n) | _ => on_ir e' n end
       | ICopy =>
           match v with
-          | VSeq k _ xs => (VSeq k n xs, S n)
+          | VSeq k _ xs => match k with
+                           | KFrozenSet => (v, n)             (* frozenset.copy() returns the object itself *)
+                           | _ => (VSeq k n xs, S n) end
           | VMap k _ kvs => (VMap k n kvs, S n)
           | _ => (v, n) end
       | ISeqComp e' =>
           match v with
           | VSeq _ _ xs =>
               let (ys, n') := map_st (fun x => run_pack x call e') xs (S n) in
+              (VSeq KList n ys, n')
+          | VMap _ _ kvs =>        (* iterating a mapping yields its keys (only reached from a union's try chain) *)
+              let (ys, n') := map_st (fun kv => match kv with (k, _) => run_pack k call e' end) kvs (S n) in
               (VSeq KList n ys, n')
           | _ => (v, n) end
       | IMapComp ke ve =>
@@ -245,13 +323,35 @@ Section RunPack.
                 zip_st (fun x t => run_pack x call' (cp E N' k.(c_sup) t)) k.(c_fields) fs (S n) in
               (VMap KDict n (as_items ys), n')
           | _ => (v, n) end
-      | IUnion => (v, n)
+      | IUnion idc es =>
+          if in_idc idc v then (v, n)
+          else pick (fun e' => negb (is_id e') && accepts v e') (fun e' => on_ir e' n) (v, n) es
       end.
 End RunPack.
 
 (* ------------------------------------------------------------------ *)
 (* conformance of a (python-side) value to a type; container kinds are not constrained:
    the theorems hold for whatever runtime class sits at a position *)
+(* member types for which the union packer is modelled (typing flattens nested unions and Optional;
+   Any, wrapped and NewType members are compared by objects that are never the class of a value) *)
+Definition union_member_ok (t: ty) : bool :=
+  match t with
+  | TAtom | TNone | TLeaf _ | TPass | TSeq _ _ | TTupV _ | TTup _ | TMap _ _ _ | TDC _ => true
+  | _ => false end.
+
+(* runtime classes a value at a position of the given origin may have (abstract origins admit the
+   usual concrete classes) *)
+Definition kind_ok (o: origin) (k: kind) : bool :=
+  match o, k with
+  | OList, KList | OSet, KSet | OFrozenSet, KFrozenSet | ODeque, KDeque | OTuple, KTuple => true
+  | OSequence, KList | OSequence, KTuple | OMutableSequence, KList => true
+  | OAbstractSet, KSet | OAbstractSet, KFrozenSet | OMutableSet, KSet => true
+  | ODict, KDict | ODict, KOrderedDict | OOrderedDict, KOrderedDict => true
+  | ODefaultDict, KDefaultDict | OCounter, KCounter => true
+  | OMapping, KDict | OMapping, KOrderedDict | OMutableMapping, KDict => true
+  | _, _ => false end.
+Definition is_tuple_kind (k: kind) : bool := match k with KTuple => true | _ => false end.
+
 Section Conf.
   Variable E : env.
   Fixpoint conforms (v: lv) {struct v} : ty -> bool :=
@@ -261,15 +361,18 @@ Section Conf.
       | TLeaf _ => match v with VLeaf _ => true | _ => false end
       | TAny | TPass => true
       | TOpt t' => match v with VNone => true | _ => on_ty t' end
-      | TSeq _ t' | TTupV t' =>
-          match v with VSeq _ _ xs => forallb (fun x => conforms x t') xs | _ => false end
+      | TSeq o t' =>
+          match v with VSeq k _ xs => kind_ok o k && forallb (fun x => conforms x t') xs | _ => false end
+      | TTupV t' =>
+          match v with VSeq k _ xs => is_tuple_kind k && forallb (fun x => conforms x t') xs | _ => false end
       | TTup ts =>
           match v with
-          | VSeq _ _ xs => zip_all conforms ts xs
+          | VSeq k _ xs => is_tuple_kind k && zip_all conforms ts xs
           | _ => false end
-      | TMap _ kt vt =>
+      | TMap o kt vt =>
           match v with
-          | VMap _ _ kvs => forallb (fun kv => match kv with (k, x) => conforms k kt && conforms x vt end) kvs
+          | VMap k _ kvs => kind_ok o k &&
+                            forallb (fun kv => match kv with (k, x) => conforms k kt && conforms x vt end) kvs
           | _ => false end
       | TDC c =>
           match v with
@@ -277,7 +380,8 @@ Section Conf.
               Nat.eqb c c' && zip_all conforms (E.(e_ct) c').(c_fields) fs
           | _ => false end
       | TWrap t' => on_ty t'
-      | TUnion _ => false
+      | TUnion ts => forallb union_member_ok ts && existsb on_ty ts
+      | TNone => match v with VNone => true | _ => false end
       end.
 End Conf.
 
@@ -337,6 +441,7 @@ Section ConvFree.
     | TTupV _ | TTup _ | TDC _ => false
     | TWrap t' => conv_free t'
     | TUnion ts => forallb conv_free ts
+    | TNone => true
     end.
 
   (* the generator's test: the element expression is the bare name *)
@@ -386,9 +491,61 @@ Section ByRef.
               zip_app (fun x t' => byref x call' N' k.(c_sup) t') k.(c_fields) fs
           | _ => [] end
       | TWrap t' => on_ty t'
-      | TUnion _ => []
+      | TUnion ts => pick (fun t' => conforms E v t') on_ty [] ts     (* the member the value belongs to *)
+      | TNone => []
       end.
 End ByRef.
+
+(* ------------------------------------------------------------------ *)
+(* Domain predicate for unions on the encode side: at every union position the value reaches, the
+   dispatch of the generated union method (identity members by exact class first, then the other
+   members' packers tried in declaration order) lands on the first member the value conforms to.
+   Where it does not, the library packs the value with the wrong member (known finding
+   C18/nocopy-union-class-check is such a case); the sharing theorem is stated under udet. *)
+Section UGo.
+  Context {A: Type} (conf idm acc rec: A -> bool) (allid inid: bool).
+  Fixpoint ugo (l: list A) : bool :=
+    match l with
+    | [] => false
+    | t' :: r =>
+        if conf t' then (if idm t' then allid || inid else negb inid && acc t') && rec t'
+        else negb (negb (idm t') && acc t') && ugo r
+    end.
+End UGo.
+
+Section UDet.
+  Variable E : env.
+  Fixpoint udet (v: lv) {struct v} : option dialect -> list origin -> bool -> ty -> bool :=
+    fun call N hsup =>
+    fix on_ty (t: ty) {struct t} : bool :=
+      match t with
+      | TAtom | TLeaf _ | TAny | TPass | TNone => true
+      | TOpt t' => match v with VNone => true | _ => on_ty t' end
+      | TWrap t' => on_ty t'
+      | TSeq _ t' | TTupV t' =>
+          match v with VSeq _ _ xs => forallb (fun x => udet x call N hsup t') xs | _ => true end
+      | TTup ts =>
+          match v with VSeq _ _ xs => zip_all (fun x t' => udet x call N hsup t') ts xs | _ => true end
+      | TMap _ kt vt =>
+          match v with
+          | VMap _ _ kvs => forallb (fun kv => match kv with (k, x) =>
+                                       udet k call N hsup kt && udet x call N hsup vt end) kvs
+          | _ => true end
+      | TDC c =>
+          match v with
+          | VObj c' _ fs =>
+              let call' := if hsup && (E.(e_ct) c).(c_sup) then call else None in
+              let k := E.(e_ct) c' in
+              let N' := effN E call' k in
+              zip_all (fun x t' => udet x call' N' k.(c_sup) t') k.(c_fields) fs
+          | _ => true end
+      | TUnion ts =>
+          let allid := forallb is_id (map (cp E N hsup) ts) in
+          let inid := in_idc (flat_map (fun t' => if is_id (cp E N hsup t') then tid t' else []) ts) v in
+          ugo (fun t' => conforms E v t') (fun t' => is_id (cp E N hsup t'))
+              (fun t' => accepts v (cp E N hsup t')) on_ty allid inid ts
+      end.
+End UDet.
 
 (* ------------------------------------------------------------------ *)
 (* deserialization: every typed container is built anew *)
@@ -416,17 +573,11 @@ Fixpoint tcls (t: ty) : nat :=
   | TMap _ _ _ | TDC _ => 3
   | TAny | TPass => 9          (* accepts everything *)
   | TUnion _ => 7              (* typing flattens nested unions: never a direct member *)
+  | TNone => 1
   end.
 Definition cls_fits (c: nat) (w: lv) : bool := Nat.eqb c 9 || Nat.eqb c (wcls w).
 
-Section Pick.
-  Context {A B: Type} (m: A -> bool) (f: A -> B) (d: B).
-  Fixpoint pick (l: list A) : B :=
-    match l with
-    | [] => d
-    | x :: r => if m x then f x else pick r
-    end.
-End Pick.
+
 
 Definition seq_kind (o: origin) : kind :=
   match o with
@@ -455,6 +606,7 @@ Fixpoint cu (t: ty) : uir :=
   | TDC c => UCall c
   | TWrap t' => cu t'
   | TUnion ts => UUnion (map (fun t' => (tcls t', cu t')) ts)
+  | TNone => UAtom
   end.
 
 Section RunUnpack.
@@ -529,6 +681,7 @@ Section RunUnpack.
           | _ => false end
       | TWrap t' => on_ty t'
       | TUnion ts => pick (fun t' => cls_fits (tcls t') w) on_ty false ts
+      | TNone => match w with VNone => true | _ => false end
       end.
 
   (* input sub-values at Any / pass_through positions *)
@@ -555,6 +708,7 @@ Section RunUnpack.
           | _ => [] end
       | TWrap t' => on_ty t'
       | TUnion ts => pick (fun t' => cls_fits (tcls t') w) on_ty [] ts
+      | TNone => []
       end.
 End RunUnpack.
 
